@@ -1,6 +1,7 @@
 package core
 
 import (
+	"go/constant"
 	"go/token"
 	"go/types"
 
@@ -92,10 +93,153 @@ func canonicalise(prog *ssa.Program) {
 			}
 			b.Instrs = kept
 		}
+		threadBoolPhis(fn)
 	}
 }
 
 func isFloat(t types.Type) bool {
 	b, ok := t.Underlying().(*types.Basic)
 	return ok && b.Info()&(types.IsFloat|types.IsComplex) != 0
+}
+
+// threadBoolPhis undoes "a condition computed as a value": a block that consists of a boolean phi and a
+// branch on it (what "case a && b:" of a tagless switch, or "ok := a || b; if ok", compile to) is removed and
+// its predecessors are wired to the branch targets directly - the short-circuit exits (constant edges) jump to
+// the side their constant selects, the predecessor that computed the last operand branches on it.  The result
+// is the control-flow graph that "if a && b" produces, so every rule sees one form.  Only blocks whose phi has
+// no other use are touched; phis of the targets get the edges of the new predecessors; dominators are rebuilt.
+func threadBoolPhis(fn *ssa.Function) {
+	changed := false
+	for again := true; again; {
+		again = false
+		for _, b := range fn.Blocks {
+			if b == nil || len(b.Instrs) != 2 || len(b.Succs) != 2 || b.Succs[0] == b.Succs[1] || b == fn.Blocks[0] {
+				continue
+			}
+			phi, ok1 := b.Instrs[0].(*ssa.Phi)
+			iff, ok2 := b.Instrs[1].(*ssa.If)
+			if !ok1 || !ok2 || iff.Cond != ssa.Value(phi) {
+				continue
+			}
+			if refs := phi.Referrers(); refs == nil || len(*refs) != 1 {
+				continue
+			}
+			T, F := b.Succs[0], b.Succs[1]
+			if T == b || F == b {
+				continue
+			}
+			// every predecessor must be rewirable: a constant edge from any block, or a computed edge from a
+			// block that ends in an unconditional jump to b
+			okAll := len(b.Preds) >= 2
+			seenPred := map[*ssa.BasicBlock]bool{}
+			computed := 0
+			for i, pr := range b.Preds {
+				if seenPred[pr] || pr == b {
+					okAll = false
+				}
+				seenPred[pr] = true
+				if c, isC := phi.Edges[i].(*ssa.Const); isC && c.Value != nil {
+					continue
+				}
+				computed++
+				if _, isJ := pr.Instrs[len(pr.Instrs)-1].(*ssa.Jump); !isJ || len(pr.Succs) != 1 {
+					okAll = false
+				}
+			}
+			// a phi whose edges are all constants is a flag variable ("found := false ... found = true"),
+			// not a short-circuit expression: left as it is (rules read such flags)
+			if !okAll || computed == 0 {
+				continue
+			}
+			edgeIndex := func(t *ssa.BasicBlock) int {
+				for i, p := range t.Preds {
+					if p == b {
+						return i
+					}
+				}
+				return -1
+			}
+			kT, kF := edgeIndex(T), edgeIndex(F)
+			if kT < 0 || kF < 0 {
+				continue
+			}
+			addPred := func(t *ssa.BasicBlock, k int, pr *ssa.BasicBlock) {
+				t.Preds = append(t.Preds, pr)
+				for _, ins := range t.Instrs {
+					ph, ok := ins.(*ssa.Phi)
+					if !ok {
+						break
+					}
+					v := ph.Edges[k]
+					ph.Edges = append(ph.Edges, v)
+					if r := v.Referrers(); r != nil {
+						*r = append(*r, ph)
+					}
+				}
+			}
+			for i, pr := range b.Preds {
+				e := phi.Edges[i]
+				if c, isC := e.(*ssa.Const); isC && c.Value != nil {
+					t, k := F, kF
+					if constant.BoolVal(c.Value) {
+						t, k = T, kT
+					}
+					for j, s := range pr.Succs {
+						if s == b {
+							pr.Succs[j] = t
+						}
+					}
+					addPred(t, k, pr)
+					continue
+				}
+				// computed edge: the jump becomes a branch on the value
+				nif := ssa.GcvNewIf(e, pr)
+				pr.Instrs[len(pr.Instrs)-1] = nif
+				if r := e.Referrers(); r != nil {
+					// the phi is leaving: replace it in the referrer list by the new branch
+					for x, u := range *r {
+						if u == ssa.Instruction(phi) {
+							(*r)[x] = nif
+						}
+					}
+				}
+				pr.Succs = []*ssa.BasicBlock{T, F}
+				addPred(T, kT, pr)
+				addPred(F, kF, pr)
+			}
+			// b leaves the graph
+			dropPred := func(t *ssa.BasicBlock) {
+				k := edgeIndex(t)
+				if k < 0 {
+					return
+				}
+				t.Preds = append(t.Preds[:k:k], t.Preds[k+1:]...)
+				for _, ins := range t.Instrs {
+					ph, ok := ins.(*ssa.Phi)
+					if !ok {
+						break
+					}
+					ph.Edges = append(ph.Edges[:k:k], ph.Edges[k+1:]...)
+				}
+			}
+			dropPred(T)
+			dropPred(F)
+			b.Preds, b.Succs = nil, nil
+			b.Instrs = nil
+			for i, x := range fn.Blocks {
+				if x == b {
+					fn.Blocks = append(fn.Blocks[:i:i], fn.Blocks[i+1:]...)
+					break
+				}
+			}
+			for i, x := range fn.Blocks {
+				x.Index = i
+			}
+			changed, again = true, true
+			break
+		}
+	}
+	if changed {
+		ssa.GcvRebuildDomTree(fn)
+	}
 }
